@@ -31,6 +31,7 @@ type Op struct {
 	Res  int
 	Idx  int    // index key number, -1 for scalar access
 	Tok  string // value written
+	Fwd  bool   // (writes) append "~" + the value last read in this attempt: the value is relayed, tagged
 }
 
 func (o Op) String() string {
@@ -40,6 +41,9 @@ func (o Op) String() string {
 	}
 	if o.Kind == OpRead {
 		return fmt.Sprintf("read r%d%s", o.Res, ix)
+	}
+	if o.Fwd {
+		return fmt.Sprintf("r%d%s := %q~<last value read>", o.Res, ix, o.Tok)
 	}
 	return fmt.Sprintf("r%d%s := %q", o.Res, ix, o.Tok)
 }
@@ -121,32 +125,79 @@ const ArchName = "Arch"
 
 func paramName(i int) string { return fmt.Sprintf("r%d", i) }
 
+// OpRec is one iface.Read / iface.Write issued by the interpreter, as the interpreter saw it.
+type OpRec struct {
+	Kind      OpKind
+	Res, Idx  int
+	Tok       string // value returned by the read / value written (valid when OK)
+	OK        bool   // iface.Read / iface.Write returned no error
+	Performed bool   // the resource performed it (it may have been reported as failed afterwards)
+	Foreign   bool   // the instance is fed by another program: the value read is not predicted by this program's model
+	HasPrev   bool   // (writes to readable, non-consuming, non-foreign instances) Prev is the model's value just before the write
+	Prev      string
+	LinkPos   int // position of this access in the link's access log (Linked instances), else -1
+}
+
+// Outcome of an attempt as told by the control flow alone (never by the trace): an attempt whose
+// successor runs the same label again aborted, one whose successor runs the next label committed.
+type Outcome int
+
+const (
+	OutcomeUnknown Outcome = iota // the run ended before the next attempt began
+	OutcomeCommitted
+	OutcomeAborted
+)
+
 // Event is one attempt as the harness saw it.
 type Event struct {
-	Label    int
-	Attempt  int
-	Aborted  bool
-	Reads    []string // rN[idx]=tok in program order
-	Writes   []string
-	Touched  map[int]bool // resources with at least one performed op
-	Kinds    map[string]bool
-	Trace    trace.Event
-	Injected *Fault
+	Label     int
+	LabelName string // value of .pc during the attempt
+	Attempt   int    // ordinal among the attempts of this label (0-based)
+	Seq       int    // ordinal among all attempts of this archetype (1-based)
+	Aborted   bool   // as reported by the trace event (when Traced), else as told by the control flow
+	Outcome   Outcome
+	Reads     []string // rN[idx]=tok in program order
+	Writes    []string
+	Ops       []OpRec
+	PCWrite   string       // target of the attempt's Goto if it was reached and succeeded
+	Touched   map[int]bool // resources with at least one performed op
+	Kinds     map[string]bool
+	Traced    bool // Trace holds the runtime's event for this attempt
+	Trace     trace.Event
+	Injected  *Fault
+	Fired     bool // the planned fault was actually delivered
 }
 
 type Result struct {
 	Failure   string
 	History   string
-	Events    []Event
+	Events    []Event // every attempt of every label (epilogue included, Done excluded), in order
 	RunErr    error
 	NonTriv   bool
 	Unplanned int // aborts not caused by the plan (time-outs)
+	// Anomalies: attempts for which the recorder received no event, events that arrived without a
+	// new attempt having begun. Not failures for C01; C18 judges them.
+	Anomalies []string
+	Finished  bool // the archetype reached Done
 }
 
 type runner struct {
 	p      *Program
 	insts  []Instance
 	labels []string
+	name   string // archetype name
+	progID int
+	// attempt bookkeeping that does not depend on the trace
+	seq       int
+	open      bool // an attempt has begun and has not been settled
+	evSeen    bool // ... and the recorder has received its event
+	noRec     bool
+	sticky    bool
+	planPos   []int
+	lastRead  string
+	anomalies []string
+	finished  bool
+	onEvent   func(Event)
 	// per-attempt state
 	cur                Event
 	curFault           *Fault
@@ -277,47 +328,82 @@ type recorder struct{ r *runner }
 
 func (rec recorder) RecordEvent(ev trace.Event) {
 	ev.Elements = append([]trace.Element(nil), ev.Elements...) // the slice is reused by the runtime
-	rec.r.endAttempt(ev)
+	r := rec.r
+	if !r.open || r.evSeen {
+		r.anomalies = append(r.anomalies, fmt.Sprintf("a trace event (isAbort=%v, %d elements) arrived although no new attempt had begun since the previous event (after attempt #%d)", ev.IsAbort, len(ev.Elements), r.seq))
+		return
+	}
+	r.evSeen = true
+	r.endAttempt(ev.IsAbort, &ev)
+}
+
+// settlePrev is called when the next attempt begins (next = its label) or Done is reached: the
+// control flow now tells how the previous attempt ended, whatever the trace said.
+func (r *runner) settlePrev(next int) {
+	if !r.open {
+		return
+	}
+	out := OutcomeCommitted
+	if next == r.cur.Label {
+		out = OutcomeAborted
+	}
+	if !r.evSeen {
+		if !r.noRec {
+			r.anomalies = append(r.anomalies, fmt.Sprintf("attempt #%d (%s attempt %d, %s by the control flow) produced no trace event", r.cur.Seq, r.cur.LabelName, r.cur.Attempt, verdict(out == OutcomeAborted)))
+		}
+		r.endAttempt(out == OutcomeAborted, nil)
+	}
+	r.events[len(r.events)-1].Outcome = out
+	r.open = false
 }
 
 // endAttempt runs after every resource has been committed or aborted.
-func (r *runner) endAttempt(ev trace.Event) {
+func (r *runner) endAttempt(isAbort bool, ev *trace.Event) {
 	e := r.cur
-	e.Aborted = ev.IsAbort
-	e.Trace = ev
+	e.Aborted = isAbort
+	if ev != nil {
+		e.Trace, e.Traced = *ev, true
+	}
 	e.Injected = r.curFault
+	e.Fired = r.fired
 	li := e.Label
+	if r.sticky && r.fired && li < len(r.planPos) {
+		r.planPos[li]++
+	}
+	r.events = append(r.events, e)
+	if r.onEvent != nil {
+		defer r.onEvent(e)
+	}
 	if li >= len(r.p.Labels) {
 		// epilogue labels (drain / probe) keep their own books
 		for _, in := range r.insts {
-			if ev.IsAbort {
+			if isAbort {
 				in.MAbort()
 			} else {
 				in.MCommit()
 			}
 		}
-		r.events = append(r.events, e)
 		return
 	}
-	if r.fired && !ev.IsAbort {
+	if r.fired && !isAbort {
 		r.fail("l%d attempt %d was COMMITTED although it failed (%s): reads %v writes %v", li, e.Attempt, r.curFault.Mode, e.Reads, e.Writes)
 	}
-	fmt.Fprintf(&r.hist, "l%d attempt %d: reads %v writes %v -> %s", li, e.Attempt, e.Reads, e.Writes, map[bool]string{true: "ABORT", false: "COMMIT"}[ev.IsAbort])
+	fmt.Fprintf(&r.hist, "l%d attempt %d: reads %v writes %v -> %s", li, e.Attempt, e.Reads, e.Writes, map[bool]string{true: "ABORT", false: "COMMIT"}[isAbort])
 	if r.curFault != nil {
 		fmt.Fprintf(&r.hist, " (injected: %s)", r.curFault.Mode)
-	} else if ev.IsAbort {
+	} else if isAbort {
 		r.unplanned++
 		fmt.Fprintf(&r.hist, " (not injected: a resource timed out)")
 	}
 	r.hist.WriteString("\n")
 	for _, in := range r.insts {
-		if ev.IsAbort {
+		if isAbort {
 			in.MAbort()
 		} else {
 			in.MCommit()
 		}
 	}
-	if ev.IsAbort {
+	if isAbort {
 		if len(e.Kinds) >= 2 {
 			r.abortedWithEffects[li] = true
 		}
@@ -329,15 +415,14 @@ func (r *runner) endAttempt(ev trace.Event) {
 		want := in.MObserve()
 		got, err := r.observe(i, in)
 		if err != nil {
-			r.fail("after %s of l%d attempt %d: cannot observe r%d (%s): %v", verdict(ev.IsAbort), li, e.Attempt, i, in.Kind(), err)
+			r.fail("after %s of l%d attempt %d: cannot observe r%d (%s): %v", verdict(isAbort), li, e.Attempt, i, in.Kind(), err)
 			return
 		}
 		if got != want {
-			r.fail("after %s of l%d attempt %d: r%d (%s) is observed as %s, expected %s", verdict(ev.IsAbort), li, e.Attempt, i, in.Kind(), got, want)
+			r.fail("after %s of l%d attempt %d: r%d (%s) is observed as %s, expected %s", verdict(isAbort), li, e.Attempt, i, in.Kind(), got, want)
 			return
 		}
 	}
-	r.events = append(r.events, e)
 }
 
 func (r *runner) observe(i int, in Instance) (string, error) {
@@ -348,7 +433,7 @@ func (r *runner) observe(i int, in Instance) (string, error) {
 	ch := make(chan res, 1)
 	go func() {
 		var out res
-		if p := hx.Catch(func() { out.s, out.err = in.Observe(r.iface, ArchName+"."+paramName(i)) }); p != nil {
+		if p := hx.Catch(func() { out.s, out.err = in.Observe(r.iface, r.name+"."+paramName(i)) }); p != nil {
 			out.err = p
 		}
 		ch <- out
@@ -377,18 +462,43 @@ func (c counter) NextFairnessCounter(id string, n uint) uint {
 	return c.inner.NextFairnessCounter(id, n)
 }
 
+// Linked is implemented by instances that are one end of something shared with another program
+// (a shared variable, a channel). The interpreter reports every performed access while the
+// attempt still holds whatever lock the resource takes; the return value is the position of the
+// access in the link's own log.
+type Linked interface {
+	Accessed(a Access) int
+}
+
+type Access struct {
+	ProgID int
+	Seq    int // attempt ordinal (Event.Seq) of the accessing program
+	Write  bool
+	Tok    string // value read / written ("" for a read that was performed and then reported as failed)
+	OK     bool   // the op was reported as successful to the critical section
+}
+
+// foreignFed instances are read by one program and written by another: the reading program's
+// model cannot predict the values, and does not try to.
+type foreignFed interface{ Foreign() bool }
+
+func isForeign(in Instance) bool {
+	f, ok := in.(foreignFed)
+	return ok && f.Foreign()
+}
+
 // doOp performs one op through the real ArchetypeInterface and checks the value read.
 func (r *runner) doOp(iface distsys.ArchetypeInterface, j int, op Op) error {
 	in := r.insts[op.Res]
 	var handle distsys.ArchetypeResourceHandle
 	var err error
 	if in.Wrappable() {
-		handle, err = iface.RequireArchetypeResourceRef(ArchName + "." + paramName(op.Res))
+		handle, err = iface.RequireArchetypeResourceRef(r.name + "." + paramName(op.Res))
 		if err != nil {
 			return err
 		}
 	} else {
-		handle = iface.RequireArchetypeResource(ArchName + "." + paramName(op.Res))
+		handle = iface.RequireArchetypeResource(r.name + "." + paramName(op.Res))
 	}
 	var indices []tla.Value
 	if op.Idx >= 0 {
@@ -399,10 +509,22 @@ func (r *runner) doOp(iface distsys.ArchetypeInterface, j int, op Op) error {
 	if op.Idx >= 0 {
 		name += fmt.Sprintf("[%d]", op.Idx)
 	}
+	foreign := isForeign(in)
+	rec := OpRec{Kind: op.Kind, Res: op.Res, Idx: op.Idx, Foreign: foreign, LinkPos: -1}
+	linked, _ := in.(Linked)
 	if op.Kind == OpRead {
 		want, ok := in.MPeek(op.Idx)
 		v, err := iface.Read(handle, indices)
-		if r.opPerform || err == nil {
+		rec.OK, rec.Performed = err == nil, r.opPerform || err == nil
+		got := ""
+		if err == nil {
+			got = "<not a string: " + v.String() + ">"
+			if v.IsString() {
+				got = v.AsString()
+			}
+			rec.Tok = got
+		}
+		if rec.Performed {
 			// performed (possibly reported as failed afterwards: the abort must then restore it)
 			r.cur.Touched[op.Res] = true
 			if in.Consuming() {
@@ -411,17 +533,22 @@ func (r *runner) doOp(iface distsys.ArchetypeInterface, j int, op Op) error {
 			if ok {
 				in.MConsume(op.Idx)
 			}
+			if linked != nil {
+				rec.LinkPos = linked.Accessed(Access{ProgID: r.progID, Seq: r.cur.Seq, Tok: got, OK: rec.OK})
+			}
 		}
+		r.cur.Ops = append(r.cur.Ops, rec)
 		if err != nil {
 			return err
+		}
+		r.lastRead = got
+		if foreign {
+			r.cur.Reads = append(r.cur.Reads, name+"="+got)
+			return nil
 		}
 		if !ok {
 			r.fail("l%d attempt %d op %d: %s returned %v although nothing committed is available to read", r.cur.Label, r.cur.Attempt, j, name, v)
 			return errStop
-		}
-		got := "<not a string: " + v.String() + ">"
-		if v.IsString() {
-			got = v.AsString()
 		}
 		r.cur.Reads = append(r.cur.Reads, name+"="+got)
 		if got != want {
@@ -430,14 +557,26 @@ func (r *runner) doOp(iface distsys.ArchetypeInterface, j int, op Op) error {
 		}
 		return nil
 	}
-	err = iface.Write(handle, indices, tla.MakeString(op.Tok))
-	if r.opPerform || err == nil {
+	tok := op.Tok
+	if op.Fwd && r.lastRead != "" {
+		tok += "~" + r.lastRead
+	}
+	if in.CanRead() && !in.Consuming() && !foreign {
+		rec.Prev, rec.HasPrev = in.MPeek(op.Idx)
+	}
+	err = iface.Write(handle, indices, tla.MakeString(tok))
+	rec.OK, rec.Performed, rec.Tok = err == nil, r.opPerform || err == nil, tok
+	if rec.Performed {
 		r.cur.Touched[op.Res] = true
 		r.cur.Kinds[in.Kind()] = true
-		in.MWrite(op.Idx, op.Tok)
+		in.MWrite(op.Idx, tok)
+		if linked != nil {
+			rec.LinkPos = linked.Accessed(Access{ProgID: r.progID, Seq: r.cur.Seq, Write: true, Tok: tok, OK: rec.OK})
+		}
 	}
+	r.cur.Ops = append(r.cur.Ops, rec)
 	if err == nil {
-		r.cur.Writes = append(r.cur.Writes, name+":="+op.Tok)
+		r.cur.Writes = append(r.cur.Writes, name+":="+tok)
 	}
 	return err
 }
@@ -445,34 +584,58 @@ func (r *runner) doOp(iface distsys.ArchetypeInterface, j int, op Op) error {
 // Options for Execute.
 type Options struct {
 	Self       tla.Value
+	Name       string // archetype name (default ArchName)
+	ProgID     int    // reported to Linked instances
 	ExtraCfg   []distsys.MPCalContextConfigFn
 	Async      map[int]bool // resource index -> answer PreCommit/Commit/Abort through (already satisfied) channels
-	OnEvent    func(Event)  // called after the harness's own checks for each attempt of a program label
+	OnEvent    func(Event)  // called at the end of every attempt (epilogue labels included), after the harness's own checks
 	RunTimeout time.Duration
+	// NoRecorder: do not install the harness's trace recorder (the context keeps whatever recorder it
+	// created itself, e.g. the file recorder of PGO_TRACE_DIR). Commit/abort is then told by the
+	// control flow alone and each attempt is settled when the next one begins.
+	NoRecorder bool
+	// StickyPlan: a planned fault stays first in line until it has actually fired (attempts that
+	// abort earlier because an input was not there yet do not use it up).
+	StickyPlan bool
 }
 
 // Execute runs the program on the real Run loop and returns what was seen.
 func Execute(p *Program, insts []Instance, opt Options) Result {
-	r := &runner{p: p, insts: insts, attempt: make([]int, len(p.Labels)+2), abortedWithEffects: map[int]bool{}, probeDone: map[int]bool{}, async: opt.Async}
+	r := &runner{p: p, insts: insts, attempt: make([]int, len(p.Labels)+2), abortedWithEffects: map[int]bool{}, probeDone: map[int]bool{}, async: opt.Async,
+		name: opt.Name, progID: opt.ProgID, noRec: opt.NoRecorder, sticky: opt.StickyPlan, planPos: make([]int, len(p.Labels)), onEvent: opt.OnEvent}
+	if r.name == "" {
+		r.name = ArchName
+	}
 	nl := len(p.Labels)
 	label := func(i int) string {
 		switch {
 		case i < nl:
-			return fmt.Sprintf("%s.l%d", ArchName, i)
+			return fmt.Sprintf("%s.l%d", r.name, i)
 		case i == nl:
-			return ArchName + ".drain"
+			return r.name + ".drain"
 		case i == nl+1:
-			return ArchName + ".probe"
+			return r.name + ".probe"
 		}
-		return ArchName + ".Done"
+		return r.name + ".Done"
 	}
 	begin := func(li int, iface distsys.ArchetypeInterface) {
 		r.iface = iface
-		r.cur = Event{Label: li, Attempt: r.attempt[li], Touched: map[int]bool{}, Kinds: map[string]bool{}}
+		r.settlePrev(li)
+		r.seq++
+		r.cur = Event{Label: li, LabelName: label(li), Attempt: r.attempt[li], Seq: r.seq, Touched: map[int]bool{}, Kinds: map[string]bool{}}
 		r.attempt[li]++
+		r.open, r.evSeen = true, false
 		r.curFault = nil
 		r.fired = false
+		r.lastRead = ""
 		r.curOp, r.opRes = -1, -1
+	}
+	gotoNext := func(li int, iface distsys.ArchetypeInterface) error {
+		err := iface.Goto(label(li + 1))
+		if err == nil {
+			r.cur.PCWrite = label(li + 1)
+		}
+		return err
 	}
 	var sections []distsys.MPCalCriticalSection
 	for li := range p.Labels {
@@ -482,7 +645,11 @@ func Execute(p *Program, insts []Instance, opt Options) Result {
 				return errStop
 			}
 			begin(li, iface)
-			if a := r.cur.Attempt; a < len(p.Plan[li]) {
+			a := r.cur.Attempt
+			if r.sticky {
+				a = r.planPos[li]
+			}
+			if a < len(p.Plan[li]) {
 				f := p.Plan[li][a]
 				r.curFault = &f
 			}
@@ -506,7 +673,7 @@ func Execute(p *Program, insts []Instance, opt Options) Result {
 			if f := r.curFault; f != nil && f.Mode == FPreCommit && !r.cur.Touched[f.Res] {
 				r.curFault = nil
 			}
-			return iface.Goto(label(li + 1))
+			return gotoNext(li, iface)
 		}})
 	}
 	// drain: read every committed-but-unconsumed input, in order
@@ -527,7 +694,7 @@ func Execute(p *Program, insts []Instance, opt Options) Result {
 				j++
 			}
 		}
-		return iface.Goto(label(nl + 1))
+		return gotoNext(nl, iface)
 	}})
 	// probe: one more read of each input must find nothing (no invented, duplicated or leaked message)
 	sections = append(sections, distsys.MPCalCriticalSection{Name: label(nl + 1), Body: func(iface distsys.ArchetypeInterface) error {
@@ -544,26 +711,36 @@ func Execute(p *Program, insts []Instance, opt Options) Result {
 				return err // expected: nothing to read
 			}
 		}
-		return iface.Goto(label(nl + 2))
+		return gotoNext(nl+1, iface)
 	}})
-	sections = append(sections, distsys.MPCalCriticalSection{Name: label(nl + 2), Body: func(distsys.ArchetypeInterface) error { return distsys.ErrDone }})
+	sections = append(sections, distsys.MPCalCriticalSection{Name: label(nl + 2), Body: func(iface distsys.ArchetypeInterface) error {
+		if r.failure == "" {
+			r.iface = iface
+			r.settlePrev(nl + 2)
+			r.finished = true
+		}
+		return distsys.ErrDone
+	}})
 
 	arch := distsys.MPCalArchetype{
-		Name: ArchName, Label: label(0),
+		Name: r.name, Label: label(0),
 		JumpTable: distsys.MakeMPCalJumpTable(sections...),
 		ProcTable: distsys.MakeMPCalProcTable(),
 		PreAmble: func(iface distsys.ArchetypeInterface) {
 			for i, in := range insts {
-				in.PreAmble(iface, ArchName+"."+paramName(i))
+				in.PreAmble(iface, r.name+"."+paramName(i))
 			}
 		},
 	}
 	for i, in := range insts {
 		if in.Wrappable() {
-			arch.RequiredRefParams = append(arch.RequiredRefParams, ArchName+"."+paramName(i))
+			arch.RequiredRefParams = append(arch.RequiredRefParams, r.name+"."+paramName(i))
 		}
 	}
-	cfg := []distsys.MPCalContextConfigFn{distsys.SetTraceRecorder(recorder{r})}
+	var cfg []distsys.MPCalContextConfigFn
+	if !opt.NoRecorder {
+		cfg = append(cfg, distsys.SetTraceRecorder(recorder{r}))
+	}
 	for i, in := range insts {
 		i := i
 		cfg = append(cfg, in.Configs(paramName(i), func(res distsys.ArchetypeResource) distsys.ArchetypeResource {
@@ -588,6 +765,7 @@ func Execute(p *Program, insts []Instance, opt Options) Result {
 		res.RunErr = err
 	case <-time.After(timeout):
 		r.fail("INCONCLUSIVE: the run did not finish within %v", timeout)
+		go ctx.Stop() // do not leave the archetype spinning behind the next case
 	}
 	if res.RunErr != nil && !errors.Is(res.RunErr, errStop) && r.failure == "" {
 		r.fail("Run returned %v", res.RunErr)
@@ -597,6 +775,8 @@ func Execute(p *Program, insts []Instance, opt Options) Result {
 	res.Events = r.events
 	res.NonTriv = r.nontriv
 	res.Unplanned = r.unplanned
+	res.Anomalies = r.anomalies
+	res.Finished = r.finished
 	return res
 }
 
